@@ -1071,6 +1071,10 @@ class NetCDFWrite(IOWrite):
                     f"Can't write {field!r}: Geometry container has multiple "
                     f"grid mapping variables: {x['grid_mapping']!r}"
                 )
+            else:
+                # No grid mapping: the geometry container has no
+                # grid_mapping attribute (rather than an empty one)
+                x.pop("grid_mapping", None)
 
             # Node count
             nc = set(x.get("node_count", ()))
